@@ -58,6 +58,8 @@ AcceptedParse(log, p) ==
 
 \* ------------------------------------------------------------------- C07
 NoRaise(ended) == ended # "raise"
+\* C08: the call ends (an observed run that had to be cut off after a runaway number of component calls has ended = "runaway")
+Terminates(ended) == ended # "runaway"
 OneOfSix(proc, ended) == ended = "return" => \A m \in DOMAIN proc : proc[m].st \in Status
 Accounted(req, log, proc, ended) == ended = "return" =>
    /\ \A i \in DOMAIN req : AccountedName(log, proc, req[i])
